@@ -50,6 +50,52 @@ OBLIGATIONS.append(Ob(name='C20.O4.lock_prefix', tier='S', static=static_lock_pr
                       desc='static fact: every RMW asm in uatomic/x86.h is lock-prefixed or xchg, has a "memory" clobber, byte operands use the q constraint',
                       functions=('uatomic/x86.h asm statements',)))
 
+
+
+def static_rmw_constraints(ctx):
+    """every asm statement of x86.h whose instruction READS its memory operand (all of them: and/or/add/inc/dec/xadd/cmpxchg/xchg)
+    declares that operand read-write: '+m', or '=m' together with a matching 'm' input.  A write-only '=m' tells the compiler that
+    the previous value is dead."""
+    from engine import rewrites
+    src = open(os.path.join(os.environ.get('VERIF_REPO', '/repo'), 'include/urcu/uatomic/x86.h')).read()
+    try:
+        _, facts = rewrites.rewrite_x86_asm(src, 32)
+    except ValueError as e:
+        return None, 'cannot parse x86.h asm statements: %s' % e
+    bad = []
+    for f in facts:
+        cs = f['constraints']
+        mem = [c for c in cs if 'm' in c]
+        rw = any('+' in c for c in mem) or (any('=' in c for c in mem) and any(('=' not in c and '+' not in c) for c in mem))
+        if not rw:
+            bad.append(f['template'])
+    if bad:
+        return False, '%d read-modify-write asm statement(s) declare their memory operand write-only ("=m"), so the compiler may discard the value stored before: %s' % (len(bad), '; '.join(bad))
+    return True, '%d asm statements: every read-modify-write memory operand is declared read-write' % len(facts)
+
+
+def replay_constraints(ctx, ob, inputs):
+    from engine import native as _n
+    import subprocess
+    wd = os.path.join(ctx.scratch, 'native_constraints'); os.makedirs(wd, exist_ok=True)
+    exe = os.path.join(wd, 'prog')
+    repo = os.environ.get('VERIF_REPO', '/repo')
+    out_all = ''
+    for opt in ('-O2', '-O1'):
+        p = subprocess.run(['gcc', opt, '-w', '-I' + repo + '/include', os.path.join(os.path.dirname(os.path.dirname(os.path.abspath(__file__))), 'harness', 'C20', 'native_constraint.c'), '-o', exe], stdout=subprocess.PIPE, stderr=subprocess.STDOUT)
+        if p.returncode != 0:
+            return 'error', 'native build failed: ' + p.stdout.decode()[-1500:]
+        r = subprocess.run([exe], stdout=subprocess.PIPE, stderr=subprocess.STDOUT, timeout=20)
+        out_all += 'gcc %s: exit %d\n%s' % (opt, r.returncode, r.stdout.decode()[-1200:])
+        if r.returncode != 0:
+            return 'reproduced', out_all
+    return 'not-reproduced', out_all
+
+
+OBLIGATIONS.append(Ob(name='C20.O5.rmw_operand_constraints', tier='S', static=static_rmw_constraints, native_custom=replay_constraints,
+                      desc='static fact: every x86 asm statement that reads and writes its memory operand declares it read-write ("+m"); a write-only "=m" lets the compiler drop the store that initialised the object (wrong results on objects whose address does not escape, at -O1 and above)',
+                      functions=('uatomic/x86.h asm statements',)))
+
 META = {
     'level': 'proof',
     'trusted_base': ['CBMC 6.11 incl. its models of the __atomic_*/__sync_* builtins', 'assumed x86 instruction contracts (verif/x86_insn.h) substituted for the 32 inline-asm statements by a must-fire rewrite',
